@@ -71,6 +71,10 @@ func (this *QRCodeWriter) Encode(
 				return nil, gozxing.NewWriterException(
 					"IllegalArgumentException: EncodeHintType_MARGIN %v", m)
 			}
+			if quietZone < 0 {
+				return nil, gozxing.NewWriterException(
+					"IllegalArgumentException: EncodeHintType_MARGIN must not be negative: %v", quietZone)
+			}
 		}
 	}
 
